@@ -1673,16 +1673,28 @@ func (r *Regex) UnmarshalText(text []byte) error {
 // MatchReader reports whether the text returned by the RuneReader
 // contains any match of the regular expression re.
 func (r *Regex) MatchReader(reader io.RuneReader) bool {
-	// Read all runes into a string and match
-	var runes []rune
+	return r.Match(readAllRunes(reader))
+}
+
+// readAllRunes drains the reader into a byte slice in which every rune
+// occupies exactly the number of bytes the reader reported for it, so that
+// match offsets are offsets into the input stream. An invalid byte (reported
+// as U+FFFD with size 1) is kept as a single invalid byte instead of being
+// re-encoded as the three-byte U+FFFD.
+func readAllRunes(reader io.RuneReader) []byte {
+	var buf []byte
 	for {
-		rn, _, err := reader.ReadRune()
+		rn, size, err := reader.ReadRune()
 		if err != nil {
 			break
 		}
-		runes = append(runes, rn)
+		if rn == utf8.RuneError && size == 1 {
+			buf = append(buf, 0xFF)
+			continue
+		}
+		buf = utf8.AppendRune(buf, rn)
 	}
-	return r.MatchString(string(runes))
+	return buf
 }
 
 // FindReaderIndex returns a two-element slice of integers defining the
@@ -1691,16 +1703,7 @@ func (r *Regex) MatchReader(reader io.RuneReader) bool {
 // byte offset loc[0] through loc[1]-1.
 // A return value of nil indicates no match.
 func (r *Regex) FindReaderIndex(reader io.RuneReader) []int {
-	// Read all runes into a string and find
-	var runes []rune
-	for {
-		rn, _, err := reader.ReadRune()
-		if err != nil {
-			break
-		}
-		runes = append(runes, rn)
-	}
-	return r.FindStringIndex(string(runes))
+	return r.FindIndex(readAllRunes(reader))
 }
 
 // FindReaderSubmatchIndex returns a slice holding the index pairs
@@ -1710,16 +1713,7 @@ func (r *Regex) FindReaderIndex(reader io.RuneReader) []int {
 // package comment.
 // A return value of nil indicates no match.
 func (r *Regex) FindReaderSubmatchIndex(reader io.RuneReader) []int {
-	// Read all runes into a string and find
-	var runes []rune
-	for {
-		rn, _, err := reader.ReadRune()
-		if err != nil {
-			break
-		}
-		runes = append(runes, rn)
-	}
-	return r.FindStringSubmatchIndex(string(runes))
+	return r.FindSubmatchIndex(readAllRunes(reader))
 }
 
 // MatchReader reports whether the text returned by the RuneReader
